@@ -263,6 +263,20 @@ def run_jph(prop, tier, seed, cfg, n=None, extra_args=None):
     return json.load(open(out)), txt
 
 
+def run_race(prop, tier, seed, cfg):
+    """C06 (and goroutine variants): the same runner under the Go race detector (needs CGO + gcc; works offline here)."""
+    script = os.path.join(VERIF, cfg["race_script"])
+    out = os.path.join(EVID, "%s.race.t3.json" % prop)
+    if os.path.exists(out):
+        os.remove(out)
+    n = str(cfg.get("race_n_quick", 500)) if tier == "quick" else str(cfg.get("race_n_thorough", 0))
+    env = dict(os.environ, HARNESS=HARNESS, LEANBIN=os.path.join(LEAN, ".lake", "build", "bin"), OUT=out, REPLAYS=REPLAYS)
+    rc, txt, dt = run(["bash", script, prop, tier, str(seed), n], cwd=VERIF, env=env, timeout=cfg.get("timeout", 7000))
+    if rc == 2 or not os.path.exists(out):
+        return None, txt
+    return json.load(open(out)), txt
+
+
 def write_replay(prop, body):
     os.makedirs(REPLAYS, exist_ok=True)
     s = json.dumps(body, indent=1, sort_keys=True)
@@ -334,6 +348,13 @@ def main(argv):
             print("infrastructure: harness run failed:\n" + txt[-3000:])
             return 2
         findings = t3["findings"]
+    race = None
+    if cfg.get("race_script") and jph_ok:
+        race, rtxt = run_race(prop, tier, seed, cfg)
+        if race is None:
+            print("note: race-detector run unavailable: " + rtxt[-400:])
+        else:
+            findings = findings + race["findings"]
 
     known, fixed = load_known()
     violations, mismatches, known_hits = [], [], []
@@ -372,6 +393,7 @@ def main(argv):
             "programs": (t3 or {}).get("evaluations", 0),
             "disagreements_checked": (t3 or {}).get("lean_queries", 0),
             "extra": (t3 or {}).get("extra", {}),
+            "race_detector": ({"evaluations": race["evaluations"], "findings": len(race["findings"]), "wall_s": race["wall_s"]} if race else "not run"),
             "explanation": cfg.get("explanation", ""),
         },
         "assumptions": cfg.get("assumptions", []),
